@@ -56,6 +56,25 @@ func cropProjects(c *core.Ctx, n int) []*gen.Project {
 			p.Cfg.TAnnual10 = 105 + r.Intn(30)
 			p.Weather.Days = gen.SynthWeather(r, p.Weather.First, p.Weather.First+len(p.Weather.Days)-1, float64(p.Cfg.TAnnual10)/10, o.HeavyRain, false, p.Weather.HasVerd, p.Cfg.ETpot == 5)
 		}
+		// every shipped parameter set: the soybean maturity groups and the second sugar beet set are selected by the
+		// variety column of the rotation file
+		variety := ""
+		switch crop {
+		case "SOY":
+			variety = []string{"iii", "", "0", "ii", "00", "i", "000", "0000"}[(i/len(annualCrops))%8]
+		case "ZR":
+			variety = []string{"chrnew", ""}[(i/len(annualCrops))%2]
+		}
+		if variety != "" {
+			for k := 1; k < len(p.Rotation); k++ {
+				if p.Rotation[k].Crop == crop {
+					p.Rotation[k].Variety = variety
+				}
+			}
+			if crop == "SOY" && p.Cfg.Lat100 < 4500 {
+				p.Cfg.Lat100 = 4500 + r.Intn(1000) // long midsummer days (the maturity groups differ in their day-length response)
+			}
+		}
 		p.Cfg.CO2Method = 1 + i%3
 		if i%2 == 1 || (early && i%4 != 0) {
 			p.Cfg.CropParamFmt = "yml"
@@ -74,7 +93,7 @@ func cropProjects(c *core.Ctx, n int) []*gen.Project {
 				p.Fert = append(p.Fert, gen.FertEv{Date: e.Sow + 10, Kg: 80, Type: "KAS"})
 			}
 		}
-		p.Arms = []string{fmt.Sprintf("crop=%s params=%s stress=%d co2=%d nsupply=%d rootLimitIsProfile=%v earlyHarvest=%v highLat=%v", crop, p.Cfg.CropParamFmt, stress, p.Cfg.CO2Method, nsupply, rootArm, early, highLat)}
+		p.Arms = []string{fmt.Sprintf("crop=%s variety=%q params=%s stress=%d co2=%d nsupply=%d rootLimitIsProfile=%v earlyHarvest=%v highLat=%v", crop, variety, p.Cfg.CropParamFmt, stress, p.Cfg.CO2Method, nsupply, rootArm, early, highLat)}
 		ps = append(ps, p)
 	}
 	return ps
